@@ -18,6 +18,8 @@ Act ==
       [] Ev.e = "timer"   -> Quiet(Ev.d)
       [] Ev.e = "tick"    -> Quiet(Ev.d)
       [] Ev.e = "restart" -> Quiet(Ev.d)
+      [] Ev.e = "xopen"   -> Quiet(Ev.d)      \* a connection of another service id opens / closes
+      [] Ev.e = "xclose"  -> Quiet(Ev.d)
       [] Ev.e = "sclosed" -> ServerClose(Ev.c, Ev.d)
       [] Ev.e = "init"    -> InitEcho(Ev.c, Ev.rep, Ev.d)
       [] Ev.e = "control" -> Quiet(Ev.d)
